@@ -527,6 +527,12 @@ func (w *world) tamper(ex *authkit.Exchange, k int, m move) {
 		r.Answer = append(r.Answer, poisonV)
 	case "cname_out":
 		r.Answer = []dns.RR{mustRR(w.wName(k) + " 300 IN CNAME " + w.victim), poisonV}
+	case "dname_out":
+		// a DNAME at Z's apex redirects the asked name into bank.test.; the answer carries the DNAME, the CNAME
+		// synthesised from it and a forged address for that (out-of-zone) target
+		tgt := strings.TrimSuffix(w.wName(k), w.zAtt) + w.zBank
+		r.Answer = []dns.RR{mustRR(w.zAtt + " 300 IN DNAME " + w.zBank), mustRR(w.wName(k) + " 300 IN CNAME " + tgt),
+			mustRR(tgt + " 300 IN A " + poisonIP)}
 	case "cname_bare":
 		r.Answer = []dns.RR{mustRR(w.wName(k) + " 300 IN CNAME " + w.victim)}
 	case "auth_foreign":
